@@ -869,7 +869,46 @@ async fn run(_tier: Tier) {
                     format!("after the failed transfer (fault {}, outcome {:?}) the secondary holds {} rrsets that match no complete version", fault, outcome, seen.len()),
                 );
             }
+            if ok {
+                // ---- nothing of the failed transfer may surface later: an
+                // unrelated small update committed afterwards gives exactly
+                // the version the secondary held plus that update.
+                let base = complete.iter().find(|c| walk_str(&content_as_walk(c)) == seen).cloned().unwrap();
+                followup(&secondary, &base, fault).await;
+            }
         }
+    }
+}
+
+/// A small unrelated update after a transfer that did not finish.
+async fn followup(secondary: &Zone, base: &Content, fault: &str) {
+    sim::stat("probe.followup_update_after_failed_transfer");
+    let rec = RecSpec {
+        owner: format!("followup.{}", APEX),
+        rtype: Rtype::TXT,
+        ttl: 60,
+        rdata: "\"followup\"".to_string(),
+    };
+    let soa = soa_spec(serial_of(base).unwrap_or(0).wrapping_add(1000));
+    let mut want = base.clone();
+    apply_add(&mut want, &rec);
+    want.remove(&(APEX.to_string(), Rtype::SOA));
+    apply_add(&mut want, &soa);
+    let mut up: ZoneUpdater<StoredName> = ZoneUpdater::new(secondary.clone()).await.expect("updater");
+    up.apply(ZoneUpdate::AddRecord(rec.record())).await.expect("apply");
+    up.apply(ZoneUpdate::Finished(soa.record())).await.expect("finish");
+    drop(up);
+    let seen = walk_str(&walk_zone(secondary.read().as_ref()));
+    let want = walk_str(&content_as_walk(&want));
+    if seen != want {
+        let extra: Vec<_> = seen.iter().filter(|x| !want.contains(x)).collect();
+        let missing: Vec<_> = want.iter().filter(|x| !seen.contains(x)).collect();
+        sim::violation(
+            P,
+            "atomicity",
+            "failed-transfer-surfaces-in-later-update".to_string(),
+            format!("after a transfer that did not finish (fault {}), a later unrelated update published more than itself: unexpected {:?}; missing {:?}", fault, extra, missing),
+        );
     }
 }
 
